@@ -30,6 +30,7 @@ type Tape struct {
 	Engine   string  `json:"engine"`
 	RunSeed  uint64  `json:"run_seed"`
 	NKDC     int     `json:"nkdc"`
+	Split    string  `json:"split_realms,omitempty"` // the realm's KDCs are configured in two blocks of one name: block | section
 	LifeS    int64   `json:"life_s"`            // KDC maximum ticket life (short, so that renewals happen in the run)
 	RenewS   int64   `json:"renew_s"`           // KDC maximum renewable life (0 = tickets not renewable)
 	Foreign  bool    `json:"foreign"`           // a second realm reached by referral
@@ -208,6 +209,11 @@ func Gen(caseID, tier string) (json.RawMessage, error) {
 			t.Ops = append(t.Ops, o)
 		}
 		tp.Tasks = append(tp.Tasks, t)
+	}
+	if tp.NKDC > 1 && r.Chance(1, 4) {
+		// the realm's servers come in two blocks of the same name (krb5.conf merges them): what
+		// GetKDCs returns is still a permutation of all of them
+		tp.Split = r.Pick("block", "section")
 	}
 	return core.MustJSON(tp), nil
 }
